@@ -18,7 +18,24 @@ def main():
     mod = importlib.import_module("vh." + a.pid.lower())
     if a.replay:
         sys.exit(mod.replay(a.replay))
-    sys.exit(mod.run())
+    try:
+        rc = mod.run()
+    except BaseException as e:  # the harness itself failed (typically: the implementation misbehaved where no guard was written)
+        if isinstance(e, (KeyboardInterrupt, SystemExit)):
+            raise
+        import json
+        import traceback
+
+        tb = traceback.format_exc()
+        os.makedirs(os.path.join(core.BUILD, "replays"), exist_ok=True)
+        path = os.path.join(core.BUILD, "replays", "%s-harness-error.json" % a.pid)
+        json.dump({"property": a.pid, "broken": [{"obligation": "harness-run", "detail": tb[-3000:]}],
+                   "note": "the check could not complete: an implementation call raised where the harness expected none; "
+                           "the property is no longer shown to hold, no minimised failing input was produced"}, open(path, "w"), indent=1)
+        sys.stderr.write(tb)
+        print("VIOLATION property=%s replay=%s no-failing-input-found" % (a.pid, path))
+        rc = 1
+    sys.exit(rc)
 
 
 if __name__ == "__main__":
